@@ -118,7 +118,7 @@ def check(pid, tier, seed, replay=None):
         return mod.replay(ctx, json.load(open(replay)))
 
     import glob
-    for old in glob.glob(os.path.join(core.VERIF, "replays", f"{pid}-{seed}-*.json")):
+    for old in glob.glob(os.path.join(core.REPLAYS, f"{pid}-{seed}-*.json")):
         os.remove(old)
     # phases 1-2 hold one lock so that concurrent checks (possibly against different trees) do not interleave
     with core.Lock("pipeline"):
